@@ -666,6 +666,21 @@ def and_(ts):
             out.extend(t[1])
         else:
             out.append(t)
+    # x == k1 excludes x == k2 for two different constants: `x == k1 and not (x == k2)` is `x == k1`; `x == k1 and x == k2` is false
+    eqs = {}
+    for t in out:
+        if t[0] == 'cmp' and t[1] == 'Eq' and (isconst(t[2]) != isconst(t[3])):
+            x_, k_ = (t[3], t[2]) if isconst(t[2]) else (t[2], t[3])
+            if x_ in eqs and eqs[x_] != k_ and type(eqs[x_][1]) == type(k_[1]):
+                return FALSE
+            eqs.setdefault(x_, k_)
+    if eqs:
+        def redundant(t):
+            if t[0] == 'not' and t[1][0] == 'cmp' and t[1][1] == 'Eq' and (isconst(t[1][2]) != isconst(t[1][3])):
+                x_, k_ = (t[1][3], t[1][2]) if isconst(t[1][2]) else (t[1][2], t[1][3])
+                return x_ in eqs and eqs[x_] != k_ and type(eqs[x_][1]) == type(k_[1])
+            return False
+        out = [t for t in out if not redundant(t)]
     out = sort_terms(set(out))
     if not out:
         return TRUE
@@ -752,6 +767,11 @@ def binv(t):
     return ('binv', t)
 
 
+def _truthy(t):
+    """t is a truth value (a comparison, a connective, True / False)"""
+    return (isconst(t) and isinstance(t[1], bool)) or t[0] in ('cmp', 'and', 'or', 'not', 'strtest')
+
+
 def gamma(c, a, b):
     # found-flag elimination: `found = False; ret = None; for ..: if p: ret = X; found = True; break` then `ret if found else D` is the first-match search
     # started from D
@@ -770,6 +790,19 @@ def gamma(c, a, b):
         return a
     if c[0] == 'not':
         return gamma(c[1], b, a)
+    # a conditional between two dictionaries with the same keys is the dictionary of the conditionals (d[k] = v under a condition)
+    if a[0] == 'dict' and b[0] == 'dict' and len(a) == 2 and len(b) == 2 and [k for k, _ in a[1]] == [k for k, _ in b[1]]:
+        return ('dict', tuple((k, gamma(c, va, vb)) for (k, va), (_, vb) in zip(a[1], b[1])))
+    # a conditional between truth values is a formula
+    if _truthy(a) and _truthy(b) and (isconst(a) or isconst(b)):
+        if a == TRUE:
+            return or_([c, b])
+        if a == FALSE:
+            return and_([not_(c), b])
+        if b == TRUE:
+            return or_([not_(c), a])
+        if b == FALSE:
+            return and_([c, a])
     if a[0] == 'gamma' and a[1] == c:
         a = a[2]
     if b[0] == 'gamma' and b[1] == c:
